@@ -9,8 +9,8 @@ Definition show_kvs (l : list (key * addr)) : string := show_list (show_pair sho
 
 Definition show_obj_ (o : obj) : string :=
   match o with
-  | OFunc n md c d doc fd cl fv =>
-      show_list (fun x => x) ["""func"""; show_N n; show_optN md; show_N c; show_N d; show_N doc; show_N fd;
+  | OFunc n md c d kd doc an fd cl fv =>
+      show_list (fun x => x) ["""func"""; show_N n; show_optN md; show_N c; show_N d; show_N kd; show_N doc; show_N an; show_N fd;
                               show_list show_N cl; show_list show_N fv]
   | OClass n md cd b sl =>
       show_list (fun x => x) ["""class"""; show_N n; show_optN md; show_kvs cd; show_list show_N b;
@@ -36,8 +36,8 @@ Definition pairs_ok (l : list (addr * addr)) (a b : addr) : bool :=
 (* er_fail = Some idx: the new source raised at statement idx *)
 Definition run_xreload (h1 : heap) (reg : list (key * addr)) (name : key) (module scratch : addr)
                        (bases : list (addr * addr)) (nm : names) (k_loadtime : key) (mtime_obj : addr)
-                       (er_fail : option nat) (h0 : heap) : string :=
-  let er := match er_fail with Some i => ExecFail i h1 | None => ExecOk h1 end in
+                       (er_fail : option (nat * N)) (h0 : heap) : string :=
+  let er := match er_fail with Some i => ExecFail (fst i) (snd i) h1 | None => ExecOk h1 end in
   let '(w, out) := xreload (pairs_ok bases) nm (S (List.length h1)) (mkW h0 reg) name module scratch k_loadtime mtime_obj er in
   show_obj [("outcome", show_outcome out); ("heap", show_heap (wheap w)); ("registry", show_kvs (wreg w))].
 
